@@ -81,6 +81,12 @@ def eval (F : Facts) : List String → Option String
     let c ← (kv cT).toNat?
     let t := tcpStallReturn F.tcpSingleDeadline T c
     some s!"err {if t ≤ T then "=T" else ">T"}"
+  | ["lock3", path] => do
+    let mf ← (match path with
+      | "broadcast" => some F.broadcastTo | "udp" => some F.sendUDP | "tcp" => some F.sendTCP | _ => none)
+    -- the third call waited two timeouts for the port: every deadline it uses must be taken after the lock
+    some (if mf.socketDeadlineAfterLock && mf.firstDeadlineAfterLock then "third:ok requests=1" else "unspecified")
+  | ["discover-straddle", _] => some "consistent"
   | ["lock-late", _] => some "first:err second:ok"
   | ["lock-same-endpoint", _, _, _] => some "first:ok second:ok"
   | ["route-after-timeout", _] => some "first:err second:ok from-bound-port"
@@ -100,7 +106,7 @@ def eval (F : Facts) : List String → Option String
       | _ => none
     -- replies too close to the end of the window are not predictable
     if ps.any (fun (t, _, _) => t + 60 > T ∧ t < T + slackMs) then some "unspecified" else
-    let got := (ps.filter fun (t, _, cl) => t < T ∧ cl = "valid").map fun (_, s, _) => s
+    let got := (ps.filter fun (t, _, cl) => t < T ∧ (cl = "valid" ∨ cl = "valid-other-port")).map fun (_, s, _) => s
     some s!"ok [{",".intercalate got}] =T"
   | _ => none
 
@@ -113,6 +119,8 @@ def judgeDrv (e : String) (impl : List String) (strayFirst : Bool := false) : St
        else if io = "ok" ∨ io = "wrong-result" then [s!"C03 the call reported a result ({io}) on the basis of a datagram it must not accept; expected: {e}",
                                                     s!"C09 the call reported success ({io}) although no acceptable reply arrived; expected: {e}"]
        else if io = "hung" then [s!"C09 the call did not return; expected: {e}"]
+       else if io = "panic" then [s!"C04 the call crashed (panic) on what the network delivered; expected: {e}",
+                                  s!"C09 the call crashed (panic); expected: {e}"]
        else [s!"C09 the call failed ({io}) although an acceptable reply arrived before its deadline; expected: {e}"] ++
             (if strayFirst then [s!"C03 the call failed ({io}) instead of skipping the datagrams it must not accept and waiting for the reply that followed; expected: {e}"] else [])) ++
       (if it = et then [] else [s!"C09 the call returned in time class {it}; expected: {e}"]) ++
